@@ -232,13 +232,29 @@ def generate(ctx):
                 ctx.count("cfg:" + lab)
         else:
             kw = cfg_kwargs(rng, 1, ctx.thorough)
-            piece = G.gen_piece(rng, pitch_range=kw["pitch_range"], tail_ok=False)
+            if i % 6 == 3:
+                # few pitches and short values: a pitch is often struck again on the very tick where its previous note ends
+                lo = kw["pitch_range"][0] + rng.randint(0, 5)
+                piece = G.gen_piece(rng, n_tracks=rng.choice([1, 1, 2]), pitch_range=(lo, lo + 1), max_notes_per_bar=4, values=[6, 12, 24], tail_ok=False)
+                ctx.count("piece:re-struck-pitches")
+            else:
+                piece = G.gen_piece(rng, pitch_range=kw["pitch_range"], tail_ok=False)
             kw["num_tracks"] = len(piece["tracks"])
         if rng.random() < 0.25 and len(piece["tracks"]) <= 16:
             # the input tracks need not be written on channel 0: each is a single-channel sequence, the tokeniser re-channels them
             chans = [rng.randrange(16) for _ in piece["tracks"]]
             piece["tracks"] = [H.rechannel(t, c) for t, c in zip(piece["tracks"], chans)]
             ctx.count("tracks:on-other-channels")
+        if i % 6 == 3 and len(piece["tracks"]) <= 3:
+            # tracks as a program may have ENTERED them: the messages of one tick in any order (all note-ons first, note-offs later), in
+            # particular a re-struck pitch whose note-on is listed before the previous note's note-off of that tick (seeded change C01_agent8)
+            new_tracks = []
+            for t in piece["tracks"]:
+                timed, dur = rel_timed(t)
+                ab = G.shuffle_ties(rng, [(m[0], m[1], tt) + tuple(m[3:]) for tt, m in timed])
+                new_tracks.append(G.abs_to_rel(ab + [G.pm(INTERNAL, 0, dur)]))
+            piece["tracks"] = new_tracks
+            ctx.count("tracks:ties-entered-in-any-order")
         ctx.count("pitch-range:%d-%d" % tuple(kw["pitch_range"]))
         cfg = P.TkCfg(**kw)
         nn = sum(len(x) for x in piece["notes"])
